@@ -510,58 +510,65 @@ def utf8Decode : Nat → List UInt8 → Option (List Char)
 
 def lowerAscii (s : List Char) : List Char := s.map Time.lower
 
-/-- `laptimer.Decoder.Decode(&db)` on a whole file: XML declaration (version, charset switch),
-    tokens, root element name, schema-driven unmarshal -/
-def decodeDoc (s : Schema) (cp1252 : List Nat) (bytes : List UInt8) : Outcome V :=
+/-- the end of the XML declaration's content: what precedes the first "?>", and its length -/
+def findDeclEnd : Nat → List Char → List Char → Option (List Char × Nat)
+  | 0, _, _ => none
+  | _, [], _ => none
+  | f + 1, c :: r, acc =>
+    if c = '?' ∧ r.head? = some '>' then some (acc.reverse, acc.length) else findDeclEnd f r (c :: acc)
+
+/-- the XML declaration, if the file starts with one: where the body starts and whether it is
+    to be read as windows-1252 -/
+def splitDecl (bytes : List UInt8) : Outcome (List UInt8 × Bool) :=
   let ascii := bytesToAscii bytes
-  -- where does the body start, and in which charset?
-  let split : Outcome (List UInt8 × Bool) :=
-    match Text.stripPrefix? "<?xml".toList ascii with
-    | some afterTarget =>
-      (match afterTarget with
-       | c :: _ => if Xml.isSpace c then Outcome.ok () else .unmodelled      -- "<?xml-stylesheet" …
-       | [] => .err .parse).bind fun _ =>
-      -- content up to "?>"
-      let rec find (fuel : Nat) (cs : List Char) (acc : List Char) : Option (List Char × Nat) :=
-        match fuel, cs with
-        | 0, _ => none
-        | _, [] => none
-        | f + 1, c :: r => if c = '?' ∧ r.head? = some '>' then some (acc.reverse, acc.length) else find f r (c :: acc)
-      match find (afterTarget.length + 1) afterTarget [] with
-      | none => .err .parse
-      | some (content, n) =>
-        if content.any (fun c => c.toNat ≥ 128) then .unmodelled else
-        let ver := procInst "version" content
-        let enc := lowerAscii (procInst "encoding" content)
-        let bodyBytes := bytes.drop (5 + n + 2)
-        if !ver.isEmpty ∧ ver ≠ "1.0".toList then .err .parse
-        else if enc.isEmpty ∨ enc = "utf-8".toList then .ok (bodyBytes, false)
-        else if enc = "windows-1252".toList ∨ enc = "cp1252".toList then .ok (bodyBytes, true)
-        else .unmodelled
-    | none => .ok (bytes, false)
-  split.bind fun (body, is1252) =>
+  match Text.stripPrefix? "<?xml".toList ascii with
+  | some afterTarget =>
+    (match afterTarget with
+     | c :: _ => if Xml.isSpace c then Outcome.ok () else .unmodelled      -- "<?xml-stylesheet" …
+     | [] => .err .parse).bind fun _ =>
+    match findDeclEnd (afterTarget.length + 1) afterTarget [] with
+    | none => .err .parse
+    | some (content, n) =>
+      if content.any (fun c => c.toNat ≥ 128) then .unmodelled else
+      let ver := procInst "version" content
+      let enc := lowerAscii (procInst "encoding" content)
+      let bodyBytes := bytes.drop (5 + n + 2)
+      if !ver.isEmpty ∧ ver ≠ "1.0".toList then .err .parse
+      else if enc.isEmpty ∨ enc = "utf-8".toList then .ok (bodyBytes, false)
+      else if enc = "windows-1252".toList ∨ enc = "cp1252".toList then .ok (bodyBytes, true)
+      else .unmodelled
+  | none => .ok (bytes, false)
+
+/-- skip everything before the root element -/
+def toRoot : List XTok → Outcome (String × List (String × List Char) × List XTok)
+  | [] => .err .eof
+  | .bad u :: _ => badOutcome u
+  | .start n as :: r => .ok (n, as, r)
+  | _ :: r => toRoot r
+
+/-- the document body as characters: tokens, root element name, schema-driven unmarshal -/
+def decodeBody (s : Schema) (cs : List Char) : Outcome V :=
+  let toks := Xml.nest [] false (Xml.lexBody (cs.length + 2) cs)
+  (toRoot toks).bind fun (name, attrs, rest) =>
+    match rootName s "DB" with
+    | none => .unmodelled
+    | some want =>
+      if name ≠ want then .err .format
+      else
+        match Xml.parseNodes (rest.length + 2) rest with
+        | .bad u => badOutcome u
+        | .ok kids _ =>
+          unmarshalNode s 64 (.named "DB") (zeroOf s 8 (.named "DB")) attrs kids
+
+/-- `laptimer.Decoder.Decode(&db)` on a whole file: XML declaration (version, charset switch),
+    then the body in that charset -/
+def decodeDoc (s : Schema) (cp1252 : List Nat) (bytes : List UInt8) : Outcome V :=
+  (splitDecl bytes).bind fun (body, is1252) =>
     let chars : Option (List Char) :=
       if is1252 then some (body.map fun b => Char.ofNat ((cp1252[b.toNat]?).getD 0xFFFD))
       else utf8Decode (body.length + 1) body
     match chars with
     | none => .unmodelled                      -- invalid UTF-8: where Go notices depends on the construct
-    | some cs =>
-      let toks := Xml.nest [] false (Xml.lexBody (cs.length + 2) cs)
-      -- skip everything before the root element
-      let rec toRoot : List XTok → Outcome (String × List (String × List Char) × List XTok)
-        | [] => .err .eof
-        | .bad u :: _ => badOutcome u
-        | .start n as :: r => .ok (n, as, r)
-        | _ :: r => toRoot r
-      (toRoot toks).bind fun (name, attrs, rest) =>
-        match rootName s "DB" with
-        | none => .unmodelled
-        | some want =>
-          if name ≠ want then .err .format
-          else
-            match Xml.parseNodes (rest.length + 2) rest with
-            | .bad u => badOutcome u
-            | .ok kids _ =>
-              unmarshalNode s 64 (.named "DB") (zeroOf s 8 (.named "DB")) attrs kids
+    | some cs => decodeBody s cs
 
 end TrackVerif.LT
